@@ -269,7 +269,7 @@ def handleSpecies (j : Json) : Except String Json := do
         ("surface", match p.surface with | some g => Json.num (g : Nat) | none => Json.null),
         ("grain", match p.grain with | some g => Json.num (g : Nat) | none => Json.null),
         ("name", S nm'), ("charge", Json.num (Sp.charge nm' : Int)), ("basename", S (Sp.basename cfg p nm')),
-        ("gasname", S (Sp.gasname cfg p nm')), ("alias", S (Sp.aliasOf cfg p nm')), ("massnumber", (Sp.massNumber p : Nat)),
+        ("gasname", S (Sp.gasname cfg p nm')), ("alias", S (Sp.aliasFull cfg p nm')), ("massnumber", (Sp.massNumber p : Nat)),
         ("is_atom", Sp.isAtom p nm'), ("is_electron", Sp.isElectron nm')]).toArray
 
 def tripleJson (t : Nat × Nat × Nat) : Json := Json.arr #[(t.1 : Nat), (t.2.1 : Nat), (t.2.2 : Nat)]
